@@ -9,24 +9,6 @@ pub assume_specification [isize::abs] (x: isize) -> (r: isize)
     requires x > isize::MIN       // isize::MIN.abs() overflows (panics in debug builds)
     ensures r as int == (if x < 0 { -(x as int) } else { x as int });
 
-pub open spec fn min_i(a: int, b: int) -> int { if a <= b { a } else { b } }
-pub open spec fn max_i(a: int, b: int) -> int { if a >= b { a } else { b } }
-
-// drop(n): n > 0 removes the first n items, n < 0 the last |n| (all of them if fewer), n == 0 nothing
-pub open spec fn spec_drop<T>(s: Seq<T>, n: int) -> Seq<T> {
-    if n > 0 { s.skip(min_i(n, s.len() as int)) } else if n < 0 { s.take(max_i(s.len() - (-n), 0)) } else { s }
-}
-// slice(l, r): inclusive index range, negative indices count from the end, right bound beyond the end clamped,
-// nothing when the range is empty or out of bounds (property C19; stated for l >= -len)
-pub open spec fn norm_l(len: int, left: int) -> int { if left < 0 { len + left } else { left } }
-pub open spec fn norm_r(len: int, right: int) -> int { if right < 0 { len + right } else if right >= len { len - 1 } else { right } }
-pub open spec fn spec_slice<T>(s: Seq<T>, left: int, right: int) -> Seq<T> {
-    let len = s.len() as int;
-    let lo = norm_l(len, left);
-    let hi = norm_r(len, right);
-    if 0 <= lo && lo <= hi && hi < len { s.subrange(lo, hi + 1) } else { Seq::empty() }
-}
-
 //@ item consume file=src/core/iter.rs block="impl<T: ?Sized> IteratorExt for T where T: Iterator," fn=consume
 //@ rw R2 + re⟦\bself\b⟧ => ⟦this⟧
 //@ rw R4 1 ⟦(&mut this).peekable()⟧ => ⟦&mut this⟧
